@@ -21,6 +21,9 @@ CLAIMED = {
  "C18": ("lock-table extraction; effect analysis of the read-only script class; enumeration of the Lua global environment from source (tile38 literals and pinned gopher-lua/gopher-json tables); set/clear pairing of per-call globals on go/cfg",
          "EVAL/EVALSHA hold the exclusive lock for the whole script and EVALRO the shared lock, with no lock operation inside; the read-only class offers no handler with a write effect; script writes pass writeAOF in the same critical section; the script environment equals the reviewed allow-list and its Go functions reach no os/net/syscall function; new globals raise; per-call globals are cleared on every path before a state returns to the pool; the script class is bound to EVAL_CMD which only cmdEvalUnified sets",
          "the Go-level behaviour of the allow-listed gopher-lua builtins (trusted); interleavings are covered by the lock argument, not enumerated"),
+ "C09": ("dominance and who-may-call rules on go/cfg; table agreement between the rewrite's emitter and the command parsers",
+         "the rewrite protocol: writes during a shrink are captured whenever they reach the live log; the final step is one exclusive critical section ordered flush → copy shrink log → sync → close → rename(new→live) → reopen → seek → size update; the live log is never renamed away or removed; the option words the rewrite emits are parsed by SET / SETHOOK; the batch cursors resume at the element that stopped the batch",
+         "value-level round trip of every object and field kind through the emitted SET, and crash instants inside the individual system calls"),
 }
 
 NOT_APPLICABLE = {
